@@ -1,0 +1,25 @@
+//go:build verif
+
+// Package verifhook provides instrumentation points for the verification harness.
+// With the build tag "verif" a handler can be installed that observes every point.
+package verifhook
+
+import "sync/atomic"
+
+var handler atomic.Value // of func(name, arg string)
+
+// SetHandler installs the function called at every Point (nil to remove).
+func SetHandler(h func(name string, arg string)) {
+	if h == nil {
+		handler.Store((func(string, string))(nil))
+		return
+	}
+	handler.Store(h)
+}
+
+// Point marks a named boundary (crash point, lock event, pause point).
+func Point(name string, arg string) {
+	if h, ok := handler.Load().(func(string, string)); ok && h != nil {
+		h(name, arg)
+	}
+}
